@@ -309,7 +309,7 @@ UNITS.append(dict(name='fragmentation', defines=['BT_NEED_COPY', 'BT_BYTES_MAX=3
                   extracts={k: v for k, v in TX_EX.items() if k not in ('alloc', 'commit', 'ctor')},
                   code=TX_CODE + '{{send}}' + TX_SETUP.replace('void h_allocate_l2cap_transmit_buffer', '//').replace('void h_commit_l2cap_transmit_buffer', '//').replace('void h_sdu_ctor', '//'),
                   enforce=['try_send_pdus'], replace=['allocate_transmit_buffer', 'commit_transmit_buffer', 'max_tx_size', 'bt_copy_u8'],
-                  quick_defines=['MTU_MAX=32', 'TX_MEM=96'], thorough_defines=['MTU_MAX=48', 'TX_MEM=300'], timeout=1500, object_bits=10))
+                  quick_defines=['MTU_MAX=32', 'TX_MEM=96'], thorough_defines=['MTU_MAX=40', 'TX_MEM=160'], timeout=1500, object_bits=10))   # MTU 48 / 300 octets exhausts the 12 GB memory cap of a job
 UNITS.append(dict(name='sdu_tx_api', defines=['BT_NEED_COPY', 'BT_BYTES_MAX=300'],
                   extracts={k: v for k, v in TX_EX.items() if k not in ('send',)},
                   code=TX_CODE + ';' + TX_FUNCS + TX_SETUP.replace('void h_try_send_pdus', '//'),
